@@ -1180,8 +1180,10 @@ def c18_jobs(tier, seed):
                                 label="decode %s n<=%d first=%02X..%02X prefix=%d sink=%s repl=%d cap=%d, twin symbolic pre-fills" % (enc, n1, lo, hi, pre, SINKS[s], r, mn + k % 2),
                                 need=[9999], weight=30, time_budget=900 if q else 3000))
                 k += 1
+    LADDER = ((0, 0x03E0), (0, 0x2708), (0x10000, 0x8698), (0xF0000, 0x4238))
     for i, (enc, base, lo, hi, b, a, pfx) in enumerate(enc_shapes(tier, seed)):
-        for repl in ((i % 2,) if q else (0, 1)):
+        # the NCR length-ladder windows exist for the with-replacement path: always run them with replacement
+        for repl in ((1,) if (base, lo) in LADDER else (i % 2,) if q else (0, 1)):
             jl.append(J("se_h_c18_enc", {0: E[enc], 1: i % 2, 2: repl, 3: base, 4: lo, 5: hi, 6: b, 7: a, 9: min(pfx, 3), 12: (14 if repl else 4) + i % 3},
                         label="encode %s from %s repl=%d U+%04X..U+%04X nb=%d,%d, twin symbolic pre-fills" % (enc, ("utf8", "utf16")[i % 2], repl, base + lo, base + hi, b, a),
                         need=[9999], weight=10, small_index_fork=64, time_budget=900 if q else 3000))
